@@ -18,6 +18,7 @@ import (
 
 type vc06LogsConsumer struct {
 	idx      int
+	cancel   context.CancelFunc // when set: the caller's context ends while this consumer runs
 	mutates  bool
 	err      error
 	calls    int
@@ -31,6 +32,9 @@ func (c *vc06LogsConsumer) Capabilities() consumer.Capabilities {
 
 func (c *vc06LogsConsumer) ConsumeLogs(_ context.Context, ld plog.Logs) error {
 	c.calls++
+	if c.cancel != nil {
+		c.cancel()
+	}
 	c.got = ld
 	if c.mutates {
 		c.mutate()
@@ -118,7 +122,14 @@ func VerifC06Logs() {
 	if !fan.Capabilities().MutatesData {
 		vReach("advertises-non-mutating")
 	}
-	err := fan.ConsumeLogs(context.Background(), ld)
+	// a fault at a particular point: the caller's context may end while the first consumer is running;
+	// the remaining consumers are still invoked and their failures still reported
+	ctx, cancelCtx := context.WithCancel(context.Background())
+	if vChoice("context-ends-during-the-first-consumer", 2) == 1 {
+		cs[0].cancel = cancelCtx
+	}
+	err := fan.ConsumeLogs(ctx, ld)
+	cancelCtx()
 
 	for _, c := range cs {
 		vAssert(c.calls == 1, "logs/every-consumer-invoked-exactly-once")
@@ -171,6 +182,7 @@ func VerifC06Logs() {
 
 type vc06TracesConsumer struct {
 	idx      int
+	cancel   context.CancelFunc // when set: the caller's context ends while this consumer runs
 	mutates  bool
 	err      error
 	calls    int
@@ -184,6 +196,9 @@ func (c *vc06TracesConsumer) Capabilities() consumer.Capabilities {
 
 func (c *vc06TracesConsumer) ConsumeTraces(_ context.Context, td ptrace.Traces) error {
 	c.calls++
+	if c.cancel != nil {
+		c.cancel()
+	}
 	c.got = td
 	if c.mutates {
 		c.mutate()
@@ -242,7 +257,14 @@ func VerifC06Traces() {
 	}
 	orig := vc06SnapTraces(td)
 	fan := NewTraces(tcs)
-	err := fan.ConsumeTraces(context.Background(), td)
+	// a fault at a particular point: the caller's context may end while the first consumer is running;
+	// the remaining consumers are still invoked and their failures still reported
+	ctx, cancelCtx := context.WithCancel(context.Background())
+	if vChoice("context-ends-during-the-first-consumer", 2) == 1 {
+		cs[0].cancel = cancelCtx
+	}
+	err := fan.ConsumeTraces(ctx, td)
+	cancelCtx()
 	vAssert(len(multierr.Errors(err)) == len(wantErrs), "traces/returned-error-aggregates-exactly-the-failures")
 	for _, w := range wantErrs {
 		vAssert(errors.Is(err, w), "traces/returned-error-contains-each-failure")
